@@ -199,6 +199,62 @@ example : ∀ b ∈ [bA, bB, bC], b.features.Nodup := by decide
 
 end BS.Props.C20
 
+/-! ### histories on one registry: lookups are observations -/
+namespace BS.Props.C20
+open BS.Registry
+
+/-- what a program does with one registry object: register a builder, or ask -/
+inductive ROp where
+  | register (b : Builder)
+  | lookup (fs : List Nat)
+
+/-- run a history on a registry; the answers of the lookups, in order -/
+def runHistory : Registry → List ROp → List (Option Builder)
+  | _, [] => []
+  | r, .register b :: ops => runHistory (register r b) ops
+  | r, .lookup fs :: ops => lookup r fs :: runHistory r ops
+
+/-- the documented answers: each lookup is answered for the registrations made BEFORE it (newest first), whatever was asked earlier -/
+def specHistory : List Builder → List ROp → List (Option Builder)
+  | _, [] => []
+  | recentFirst, .register b :: ops => specHistory (b :: recentFirst) ops
+  | recentFirst, .lookup fs :: ops => lookupSpec recentFirst fs :: specHistory recentFirst ops
+
+theorem history_answers_aux (regs : List Builder) (ops : List ROp) (hnd : ∀ b ∈ regs, b.features.Nodup)
+    (hops : ∀ op ∈ ops, ∀ b, op = .register b → b.features.Nodup) :
+    runHistory (registerAll regs) ops = specHistory regs.reverse ops := by
+  induction ops generalizing regs with
+  | nil => rfl
+  | cons op ops ih =>
+    cases op with
+    | register b =>
+      have hb : b.features.Nodup := hops _ (by simp) b rfl
+      have h1 : register (registerAll regs) b = registerAll (regs ++ [b]) := by
+        simp [registerAll, List.foldl_append]
+      simp only [runHistory, specHistory, h1]
+      have := ih (regs ++ [b]) (by
+        intro c hc
+        rcases List.mem_append.mp hc with hc | hc
+        · exact hnd c hc
+        · simp at hc; rw [hc]; exact hb) (fun op hop => hops op (by simp [hop]))
+      simpa using this
+    | lookup fs =>
+      simp only [runHistory, specHistory]
+      rw [lookup_spec regs fs hnd, ih regs hnd (fun op hop => hops op (by simp [hop]))]
+
+/-- **every interleaving** of registrations and lookups on a fresh registry: each lookup gets the documented answer for the
+    registrations made so far — a lookup (or any number of them) never changes what a later lookup answers, and a builder
+    registered after a question was asked is seen by the next identical question -/
+theorem history_answers (ops : List ROp) (hops : ∀ op ∈ ops, ∀ b, op = .register b → b.features.Nodup) :
+    runHistory empty ops = specHistory [] ops := by
+  have := history_answers_aux [] ops (by intro b hb; cases hb) hops
+  simpa [registerAll] using this
+
+example : runHistory empty [.lookup [0], .register ⟨1, [0, 1]⟩, .lookup [0], .lookup [5], .register ⟨2, [0]⟩, .lookup [0]]
+    = [none, some ⟨1, [0, 1]⟩, none, some ⟨2, [0]⟩] := by decide
+
+end BS.Props.C20
+
 /-! ### obligations over the generated (live) registry of this working tree -/
 namespace BS.Props.C20
 open BS.Registry
